@@ -79,7 +79,7 @@ def direct_input(e, labels) -> bool:
         return True
     if e[0] in ("unp", "unpall"):
         return False
-    if e[0] in ("slice", "sub"):
+    if e[0] in ("slice", "sub", "chunk"):
         return direct_input(e[1], labels)
     if e[0] == "call":
         if e[1][0] == "g" and e[1][1] in ("len",):
@@ -186,12 +186,25 @@ def check_payload(prog, rep, family, rctx, rname, pfield):
     for p in ps:
         obj = loaded_obj(f, p)
         v = p.fields.get((obj, pfield))
+        if v is not None and v[0] == "newb" and v[1] == "array" and len(v[3]) == 1:
+            # array(tc) filled by .frombytes(data): the same cells as array(tc, bytes(data))
+            fb = [e for e in p.events if e.kind == "call" and e.name == "frombytes" and e.recv is not None and strip_epochs(e.recv)[:3] == strip_epochs(v)[:3] and e.args]
+            if len(fb) == 1:
+                v = ("newb", "array", v[2], (v[3][0], ("call", ("g", "bytes"), (fb[0].args[0],), ())))
         if v is None or not (v[0] == "newb" and v[1] == "array" and len(v[3]) >= 2) and not (v[0] == "fileobj" and v[2] == "mmap"):
             rep.bad("C05.payload", where, f"{pfield} = {nshow(v) if v else 'unassigned'}", f"{where} does not take {pfield} from the input", f.where())
             return
         if v[0] == "fileobj":
             continue
         tc, data = v[3][0], v[3][1]
+        d0 = strip_epochs(data)
+        if not (d0[0] == "call" and d0[1] in (("g", "bytes"), ("g", "bytearray"))) and direct_input(data, LABELS) and rname in ("frombytes",):
+            # array(tc, x) copies x as raw machine values only when x is bytes / bytearray; any other buffer (a memoryview, which the
+            # ByteString annotation admits) is iterated, so every BYTE becomes one cell
+            rep.bad("C05.payload", where, f"{pfield} = array({nshow(tc)}, {nshow(data)})",
+                    f"the cells are built as array({nshow(tc)}, {nshow(data)}) without bytes(...): for a memoryview input each byte of the payload becomes a cell "
+                    "(four times too many cells holding byte values), silently", f.where())
+            return
         if not direct_input(data, LABELS):
             rep.bad("C05.payload", where, f"{pfield} data {nshow(data)}", f"the cells are built from {nshow(data)}, not from the input data", f.where())
             return
@@ -571,6 +584,27 @@ def check(prog, rep, tier):
             ex = [e for e in p.events if e.kind == "call" and e.name == "export" and e.recv == SELF and e.args and e.args[0][0] == "fileobj" and e.args[0][2] == "BytesIO"]
             rv = p.exit[1]
             okb = bool(ex) and rv[0] == "call" and rv[1][0] == "m" and rv[1][2] == "getvalue" and rv[1][1] == ex[0].args[0]
+        if not okb:
+            # ... or __bytes__ spells out the very emission list of the file-object body: <cells>.tobytes() + <footer pack>
+            _, em_ = emissions(prog, ctx)
+            if em_ and not any(x[-2] for x in em_):
+                want_ = [("cells", x[1]) if x[0] == "cells" else (("pack", bare(x[1]), x[2]) if x[0] == "pack" else ("raw", x[1])) for x in em_]
+                from ..walk import Walker
+                for p in Walker(prog, ctx, inline="deep", param_types={"second": "<ctx>"}).run(bf):
+                    if p.exit[0] != "return":
+                        continue
+                    parts, todo = [], [strip_epochs(p.exit[1])]
+                    while todo:
+                        x = todo.pop(0)
+                        if x[0] == "bin" and x[1] == "+":
+                            todo = [x[2], x[3]] + todo
+                        elif x[0] == "call" and x[1][0] == "m" and x[1][2] == "tobytes" and not x[2]:
+                            parts.append(("cells", x[1][1]))
+                        elif x[0] == "pack":
+                            parts.append(("pack", bare(x[1]), tuple(strip_epochs(a) for a in x[2])))
+                        else:
+                            parts.append(("other", x))
+                    okb = parts == want_
         ef = prog.method(ctx, "export")
         okp = False
         for p in paths(prog, ctx, ef):
